@@ -192,10 +192,6 @@ def check_runtime_sampling(ctx, R="C19.runtime"):
     )
     model = ctx.model
     fn = model.func(DI, "Distribution.__new__")
-    sim = [n for n in fn.body if isinstance(n, ast.If) and "simulationInProgress()" in unparse(n.test)]
-    if not sim:
-        raise AnalysisError("shape not recognised: Distribution.__new__ simulation branch")
-    b = sim[0].body
     # roles -> canonical names, so that the comparison below does not depend on what the locals are called
     d_ = lib.local_from(fn, "super().__new__(cls)", what="new distribution object")
     s_ = lib.local_from(fn, "veneer.simulation()", what="current simulation")
@@ -205,30 +201,59 @@ def check_runtime_sampling(ctx, R="C19.runtime"):
     if len(v_) != 1:
         raise AnalysisError("shape not recognised: the sampled value of Distribution.__new__")
     ren = {d_: "dist", s_: "sim", m_: "subsamples", v_[0]: "value"}
-    txt = [lib.subst_names(s, ren) for s in b]
+
+    def is_sim_test(t):
+        return isinstance(t, ast.Call) and (dotted(t.func) or "").endswith("simulationInProgress") and not t.args
+
+    def decide(test, env, asm):
+        # paths of a running simulation only
+        if is_sim_test(test):
+            return True
+        if isinstance(test, ast.UnaryOp) and isinstance(test.op, ast.Not) and is_sim_test(test.operand):
+            return False
+        return None
+
+    if not any(is_sim_test(n) for n in ast.walk(fn)):
+        raise AnalysisError("shape not recognised: Distribution.__new__ simulation branch")
     need = ["dist.__init__(*args, **kwargs)", "subsamples = DefaultIdentityDict()", "subsamples[dist] = value", "sim.recordSampledValue(dist, subsamples)", "return value"]
-    pos = []
-    for n_ in need:
-        i = next((k for k, t in enumerate(txt) if t == n_), None)
-        pos.append(i)
-    if None in pos or pos != sorted(pos):
-        ctx.finding(R, sim[0], "runtime sampling sequence", f"Distribution.__new__ (simulation branch) no longer runs {need} in order (found positions {pos})")
+    npaths = 0
+    seq_ok = src_ok = rec_ok = True
+    where = fn
+    for asm, env, ex in lib.enumerate_paths(fn, decide=decide):
+        npaths += 1
+        tr = [st for st in env.get(lib.TRACE, ()) if not lib.is_inert(st)]
+        txt = [lib.subst_names(st, ren) for st in tr]
+        pos = [next((k for k, t in enumerate(txt) if t == n_), None) for n_ in need]
+        if isinstance(ex, ast.Raise):
+            continue  # a rejected call draws nothing
+        if None in pos or pos != sorted(pos) or pos[-1] != len(txt) - 1:
+            seq_ok = False
+            where = ex or fn
+        # the value: the replayed one exactly when the replay can continue, else a fresh sample of the distribution itself
+        replay = [v for t, v in lib.assumption_atoms(asm) if lib.subst_names(t, ren) == "sim.replayCanContinue()"]
+        vals = [t for t in txt if t.startswith("value = ")]
+        want = None if not replay else "value = sim.replaySampledValue(dist, subsamples)" if replay[0] else "value = dist.sample(subsamples)"
+        if want is None or vals != [want]:
+            src_ok = False
+            where = ex or fn
+        # recorded before returning
+        if isinstance(ex, ast.Return) and "sim.recordSampledValue(dist, subsamples)" not in txt:
+            rec_ok = False
+            where = ex
+    if npaths < 2:
+        raise AnalysisError("shape not recognised: Distribution.__new__ run-time paths (replay / fresh)")
+    if seq_ok:
+        ctx.ok(R, fn, "every run-time path: init -> fresh map -> sample or replay -> record -> return")
     else:
-        ctx.ok(R, sim[0], "init -> fresh map -> sample or replay -> record -> return")
-    iff = [s for s in b if isinstance(s, ast.If) and "replayCanContinue()" in unparse(s.test)]
-    neg = bool(iff) and isinstance(iff[0].test, ast.UnaryOp) and isinstance(iff[0].test.op, ast.Not)
-    br_replay, br_fresh = (iff[0].orelse, iff[0].body) if neg else (iff[0].body, iff[0].orelse) if iff else ([], [])
-    if iff and len(br_replay) >= 1 and len(br_fresh) >= 1 and lib.subst_names(br_replay[0], ren) == "value = sim.replaySampledValue(dist, subsamples)" and lib.subst_names(br_fresh[0], ren) == "value = dist.sample(subsamples)":
-        ctx.ok(R, iff[0], "the value is sampled from the distribution itself unless a replay supplies it")
+        ctx.finding(R, where, "runtime sampling sequence", f"Distribution.__new__ (simulation branch) no longer runs {need} in order on every path of a running simulation")
+    if src_ok:
+        ctx.ok(R, fn, "the value is sampled from the distribution itself unless a replay supplies it")
     else:
-        ctx.finding(R, sim[0], "runtime sample source", "the run-time value is no longer `dist.sample(subsamples)` (or the replayed value)")
-    # no path of the branch returns without recording
-    rets = [r for r in ast.walk(sim[0]) if isinstance(r, ast.Return)]
-    rec_line = next((s.lineno for s in b if lib.subst_names(s, ren) == "sim.recordSampledValue(dist, subsamples)"), None)
-    if rec_line and all(r.lineno > rec_line for r in rets):
-        ctx.ok(R, sim[0], "every return of the simulation branch comes after recordSampledValue")
+        ctx.finding(R, where, "runtime sample source", "the run-time value is no longer `dist.sample(subsamples)` (or the replayed value exactly when the replay can continue)")
+    if rec_ok:
+        ctx.ok(R, fn, "every return of the simulation branch comes after recordSampledValue")
     else:
-        ctx.finding(R, sim[0], "unrecorded return", "a return in the simulation branch of Distribution.__new__ precedes recordSampledValue: that draw is missing from the replay")
+        ctx.finding(R, where, "unrecorded return", "a return in the simulation branch of Distribution.__new__ precedes recordSampledValue: that draw is missing from the replay")
 
 
 def check(ctx):
